@@ -39,6 +39,7 @@ type Stats struct {
 	Samples    []json.RawMessage `json:"samples"`
 	Violations []Violation       `json:"violations"`
 	Trouble    []string          `json:"trouble"` // harness-level problems (exit 2)
+	TranscriptSum uint64         `json:"transcript_sum"` // order-independent digest of all episode transcripts
 	distinct   map[uint64]struct{}
 }
 
@@ -359,6 +360,7 @@ func workerMain(def *CheckDef, tier string, w, W int, out string) int {
 		}
 		vs, tr1, trouble := runSpec(def, st, tier, eseed, spec, false, scratch)
 		st.Episodes++
+		st.TranscriptSum += mix(uint64(i)+1, tr1)
 		if trouble != "" {
 			st.Trouble = append(st.Trouble, fmt.Sprintf("episode %d seed %d: %s", i, eseed, trouble))
 			if len(st.Trouble) > 3 {
@@ -465,7 +467,11 @@ func parentMain(def *CheckDef, tier string) int {
 	for w := 0; w < W && n > 0; w++ {
 		out := filepath.Join(scratch, fmt.Sprintf("worker-%s-%d.json", def.ID, w))
 		cmd := exec.Command(exe, "-worker", strconv.Itoa(w), "-workers", strconv.Itoa(W), "-out", out, def.ID, tier)
-		cmd.Env = append(os.Environ(), "GOMAXPROCS=2")
+		gmp := "2"
+		if v := os.Getenv("VERIF_GOMAXPROCS"); v != "" {
+			gmp = v
+		}
+		cmd.Env = append(os.Environ(), "GOMAXPROCS="+gmp)
 		var sb strings.Builder
 		cmd.Stdout = &sb
 		cmd.Stderr = &sb
@@ -590,7 +596,7 @@ func parentMain(def *CheckDef, tier string) int {
 		fmt.Println("evidence:", err)
 		trouble = true
 	}
-	fmt.Printf("%s %s: episodes=%d evaluations=%d distinct=%d violations=%d known=%d wall=%.1fs\n", def.ID, tier, total.Episodes, total.Evals, len(total.distinct), nviol, total.Counters["known_finding_hits"], wall)
+	fmt.Printf("%s %s: episodes=%d evaluations=%d distinct=%d violations=%d known=%d transcript=%016x wall=%.1fs\n", def.ID, tier, total.Episodes, total.Evals, len(total.distinct), nviol, total.Counters["known_finding_hits"], total.TranscriptSum, wall)
 	if exit == 1 {
 		return 1
 	}
@@ -609,6 +615,7 @@ func tail(s string, n int) string {
 
 func mergeStats(t, s *Stats) {
 	t.Episodes += s.Episodes
+	t.TranscriptSum += s.TranscriptSum
 	t.Evals += s.Evals
 	for k, v := range s.Counters {
 		t.Counters[k] += v
@@ -656,6 +663,7 @@ func writeEvidence(def *CheckDef, tier string, seed uint64, st *Stats, wall floa
 		"components_real":     def.Real,
 		"components_simulated": def.Simulated,
 		"exhaustive":          false,
+		"transcript_digest":   fmt.Sprintf("%016x", st.TranscriptSum),
 	}
 	ev := map[string]interface{}{
 		"property_id": def.ID,
